@@ -96,8 +96,15 @@ func forgeSha(r *Rng, s common.Hash, d int) common.Hash {
 }
 
 const lowestReal = 249
-const poolPerBucket = 30
-const forgedPerBucket = 20
+const forgedPerBucket = 10
+
+// ids searched per real bucket (bucket 256 gets enough to overflow the replacement cache)
+func poolPerBucket(d int) int {
+	if d == 256 {
+		return 36
+	}
+	return 26
+}
 
 func buildSelfPool(r *Rng, k int) *selfPool {
 	sp := &selfPool{k: k, id: randID(r), pools: map[int][]dht.NodeID{}, realGrp: map[int]int{}, forgGrp: map[int]int{}}
@@ -108,11 +115,11 @@ func buildSelfPool(r *Rng, k int) *selfPool {
 	for missing > 0 {
 		id := randID(r)
 		d := bitDist(sp.sha, dht.VerifNode(id).VerifSha())
-		if d < lowestReal || len(sp.pools[d]) >= poolPerBucket {
+		if d < lowestReal || len(sp.pools[d]) >= poolPerBucket(d) {
 			continue
 		}
 		sp.pools[d] = append(sp.pools[d], id)
-		if len(sp.pools[d]) == poolPerBucket {
+		if len(sp.pools[d]) == poolPerBucket(d) {
 			missing--
 		}
 	}
@@ -126,7 +133,7 @@ func buildSelfPool(r *Rng, k int) *selfPool {
 		sp.groups = append(sp.groups, g)
 	}
 	bs := append([]int(nil), boundaryBuckets...)
-	for len(bs) < len(boundaryBuckets)+6 {
+	for len(bs) < len(boundaryBuckets)+4 {
 		bs = append(bs, r.Intn(257))
 	}
 	for _, d := range bs {
@@ -153,7 +160,7 @@ func (sp *selfPool) forgedAt(r *Rng, d int) (common.Hash, int, int) {
 
 func shortID(id dht.NodeID) string { return hex.EncodeToString(id[:4]) }
 
-var boundaryBuckets = []int{0, 1, 2, 7, 8, 9, 15, 16, 17, 64, 127, 128, 129, 200, 247, 248, 255, 256}
+var boundaryBuckets = []int{0, 1, 2, 8, 9, 16, 17, 128, 129, 248, 255, 256}
 
 func popSize(r *Rng) int {
 	switch x := r.Intn(100); {
@@ -381,6 +388,9 @@ func oracle(sp *selfPool, s snap) string {
 		}
 		seen := map[dht.NodeID]bool{}
 		for _, e := range es {
+			if e == nil {
+				return fmt.Sprintf("class=nil-entry: bucket %d holds a nil entry", i)
+			}
 			if seen[e.ID] {
 				return fmt.Sprintf("class=duplicate-node: node %s twice in the entries of bucket %d", shortID(e.ID), i)
 			}
@@ -401,7 +411,7 @@ func oracle(sp *selfPool, s snap) string {
 
 func hasID(l []*dht.Node, id dht.NodeID) bool {
 	for _, e := range l {
-		if e.ID == id {
+		if e != nil && e.ID == id {
 			return true
 		}
 	}
@@ -469,39 +479,53 @@ func runCase(c *Ctx, g *genCase) {
 				}
 			}
 		}
-		switch o.kind {
-		case "add":
-			r := t.Add(n)
-			if r == nil {
+		panicked := func() (p interface{}) {
+			defer func() { p = recover() }()
+			switch o.kind {
+			case "add":
+				r := t.Add(n)
+				if r == nil {
+					obs = append(obs, "None")
+				} else {
+					obs = append(obs, fmt.Sprintf("Some %d%%N", g.labelOf(r.ID)))
+					c.Stats.Count("ev_add_parked_in_replacements")
+				}
+			case "stuff":
+				l := make([]*dht.Node, len(o.idx))
+				for i, x := range o.idx {
+					l[i] = g.nodes[x].n
+				}
+				t.Stuff(l)
 				obs = append(obs, "None")
-			} else {
-				obs = append(obs, fmt.Sprintf("Some %d%%N", g.labelOf(r.ID)))
-				c.Stats.Count("ev_add_parked_in_replacements")
+				c.Stats.Count(fmt.Sprintf("stuff_len_%s", sizeClass(len(l))))
+			case "delete":
+				t.Delete(n)
+				obs = append(obs, "None")
+			case "deleteReplace":
+				t.DeleteReplace(n)
+				obs = append(obs, "None")
+			case "bump":
+				if t.Bump(n) {
+					obs = append(obs, "Some 1%N")
+					c.Stats.Count("ev_bump_hit")
+				} else {
+					obs = append(obs, "Some 0%N")
+				}
+			case "delRepl":
+				t.DeleteFromReplacement(n)
+				obs = append(obs, "None")
 			}
-		case "stuff":
-			l := make([]*dht.Node, len(o.idx))
-			for i, x := range o.idx {
-				l[i] = g.nodes[x].n
-			}
-			t.Stuff(l)
-			obs = append(obs, "None")
-			c.Stats.Count(fmt.Sprintf("stuff_len_%s", sizeClass(len(l))))
-		case "delete":
-			t.Delete(n)
-			obs = append(obs, "None")
-		case "deleteReplace":
-			t.DeleteReplace(n)
-			obs = append(obs, "None")
-		case "bump":
-			if t.Bump(n) {
-				obs = append(obs, "Some 1%N")
-				c.Stats.Count("ev_bump_hit")
-			} else {
-				obs = append(obs, "Some 0%N")
-			}
-		case "delRepl":
-			t.DeleteFromReplacement(n)
-			obs = append(obs, "None")
+			return nil
+		}()
+		if panicked != nil {
+			// a run-time panic inside a table operation: the table does not survive the sequence
+			what := fmt.Sprintf("class=panic: %s%v panicked: %v", o.kind, o.idx, panicked)
+			desc := g.describe(k + 1)
+			desc["failed_after_op"] = k
+			c.Stats.Fail(what, desc)
+			c.Stats.Count("oracle_failure")
+			c.Stats.Case(fmt.Sprintf("panic-%d", c.Stats.Evaluations), false)
+			return
 		}
 		after := takeSnap(t)
 		if after.count != before.count {
@@ -540,6 +564,10 @@ func runCase(c *Ctx, g *genCase) {
 		ids := func(l []*dht.Node) string {
 			var s []string
 			for _, e := range l {
+				if e == nil {
+					s = append(s, fmt.Sprint(1<<30))
+					continue
+				}
 				s = append(s, fmt.Sprint(g.labelOf(e.ID)))
 			}
 			if len(s) == 0 {
@@ -664,7 +692,11 @@ func fixedCases(c *Ctx, sp *selfPool) []*genCase {
 				h, grp, j = sp.forgedAt(c.Rng, d)
 				nd = dht.VerifNodeWithSha(randID(c.Rng), h)
 			}
-			g.nodes = append(g.nodes, nodeSpec{nd, "real", k + 1, grp, j})
+			kind := "real"
+			if d < lowestReal {
+				kind = "forged"
+			}
+			g.nodes = append(g.nodes, nodeSpec{nd, kind, k + 1, grp, j})
 			g.byBkt[d] = append(g.byBkt[d], k)
 		}
 		g.hot = []int{0}
@@ -689,9 +721,9 @@ func fixedCases(c *Ctx, sp *selfPool) []*genCase {
 			opSpec{"deleteReplace", []int{8}}, opSpec{"delRepl", []int{17}}, opSpec{"deleteReplace", []int{9}})
 		out = append(out, g)
 		// replacement cache overflow: 16 entries + 18 parked
-		g = mk(d, 30)
-		if len(g.nodes) == 30 {
-			g.ops = append(seq("add", 0, 30), opSpec{"add", []int{20}}, opSpec{"deleteReplace", []int{0}}, opSpec{"deleteReplace", []int{29}}, opSpec{"delete", []int{1}}, opSpec{"add", []int{25}}, opSpec{"deleteReplace", []int{2}})
+		if d == 256 || d < lowestReal {
+			g = mk(d, 36)
+			g.ops = append(seq("add", 0, 36), opSpec{"add", []int{20}}, opSpec{"deleteReplace", []int{0}}, opSpec{"deleteReplace", []int{35}}, opSpec{"delete", []int{1}}, opSpec{"add", []int{25}}, opSpec{"deleteReplace", []int{2}})
 			out = append(out, g)
 		}
 	}
@@ -705,7 +737,7 @@ func runC34(c *Ctx) error {
 	if dht.VerifNBuckets != 257 {
 		return fmt.Errorf("nBuckets is %d, the model has 257", dht.VerifNBuckets)
 	}
-	nself := c.N(3, 8)
+	nself := c.N(3, 6)
 	var selfs []*selfPool
 	for i := 0; i < nself; i++ {
 		selfs = append(selfs, buildSelfPool(c.Rng, i))
@@ -713,7 +745,7 @@ func runC34(c *Ctx) error {
 	for _, g := range fixedCases(c, selfs[0]) {
 		runCase(c, g)
 	}
-	n := c.N(1500, 12000)
+	n := c.N(1200, 6000)
 	for i := 0; i < n; i++ {
 		sp := selfs[c.Rng.Intn(len(selfs))]
 		g := genPopulation(c.Rng, sp, c)
@@ -737,6 +769,6 @@ func runC34(c *Ctx) error {
 	header := "From Coq Require Import ZArith NArith List Bool.\nFrom C34 Require Import Model Run.\nImport ListNotations.\n" +
 		"Definition pools : pool := Eval vm_compute in mkpools (" + strings.Join(ps, " ::\n ") + " :: nil)%N.\n" +
 		"Definition rc := run_case_pool pools.\n"
-	c.Cases.Shard = c.N(300, 1000)
+	c.Cases.Shard = c.N(260, 500)
 	return c.Cases.Write(c.Out, header, "cres", "cres_eqb")
 }
